@@ -338,12 +338,18 @@ pub fn judge(case: &MatchCase, line: &str) -> Result<CaseInfo, String> {
         let mut c2 = case.clone();
         for alt in c2.alts.iter_mut() {
             for p in alt.iter_mut() {
-                visit_names_p(p, &mut |n: &mut String| found |= MACRO_LIKE_NAMES.contains(&n.as_str()) || (n.len() == 2 && (n.starts_with('m') || n.starts_with('l'))));
+                visit_names_p(p, &mut |n: &mut String| found |= MACRO_LIKE_NAMES.contains(&n.as_str()) || (n.len() == 2 && (n.starts_with('m') || n.starts_with('l')) && n.as_bytes()[1].is_ascii_digit()));
             }
         }
         found
     };
     info = info.class_if(macro_like, "binding-named-like-a-macro-internal(a0,l0,reporter..)");
+    let moving = case.alts.len() >= 2 && {
+        let pos_of = |alt: &Vec<P>| alt.iter().position(|p| matches!(p, P::Bind(n) if n == "mv"));
+        let first = pos_of(&case.alts[0]);
+        first.is_some() && case.alts.iter().any(|a| pos_of(a) != first)
+    };
+    info = info.class_if(moving, "guard-variable-bound-at-different-positions");
     info.classes.extend(cs);
     Ok(info)
 }
@@ -374,7 +380,25 @@ pub fn case_strategy() -> impl Strategy<Value = MatchCase> {
         any::<u8>(),
         any::<bool>(),
     )
-        .prop_flat_map(|(tys, n_alts, structural, guard_sel, parenthesized)| {
+        .prop_flat_map(|(mut tys, mut n_alts, structural, guard_sel, parenthesized)| {
+            if guard_sel % 5 == 2 && tys.len() >= 2 {
+                // the "guard variable moves between alternatives" family needs two positions of one
+                // simple type and at least two alternatives
+                let t = if guard_sel % 2 == 0 { Ty::U8 } else { Ty::Bool };
+                tys[0] = t;
+                tys[1] = t;
+                let mut size = 1usize;
+                tys.retain(|t| {
+                    let d = t.domain().len();
+                    if size * d <= 300 {
+                        size *= d;
+                        true
+                    } else {
+                        false
+                    }
+                });
+                n_alts = n_alts.max(2);
+            }
             let n_alts = if tys.is_empty() { 1 } else { n_alts };
             let mut alts: Vec<BoxedStrategy<Vec<(P, Vec<(String, VarKind)>)>>> = vec![];
             for _ in 0..n_alts {
@@ -466,6 +490,33 @@ pub fn case_strategy() -> impl Strategy<Value = MatchCase> {
                         if !case.accepts(&target) {
                             // the guard (or a binding it needs, now generalised away) is in the way
                             case.guard = None;
+                        }
+                    }
+                    if guard_sel % 5 == 2 && case.alts.len() >= 2 {
+                        // the guard's variable is bound at a DIFFERENT position in each alternative
+                        // (`(x, _) | (_, x) if ..`): which alternative accepts depends on the guard
+                        for want in [Ty::U8, Ty::Bool] {
+                            let positions: Vec<usize> = case.tys.iter().enumerate().filter(|(_, t)| **t == want).map(|(k, _)| k).collect();
+                            if positions.len() < 2 {
+                                continue;
+                            }
+                            let catch_all_first = guard_sel % 2 == 0;
+                            for (a, alt) in case.alts.iter_mut().enumerate() {
+                                let at = positions[(a + guard_sel as usize / 5) % positions.len()];
+                                alt[at] = P::Bind("mv".to_string());
+                                if a == 0 && catch_all_first {
+                                    for (k, p) in alt.iter_mut().enumerate() {
+                                        if k != at {
+                                            *p = P::Wild;
+                                        }
+                                    }
+                                }
+                            }
+                            case.guard = Some(match want {
+                                Ty::U8 => G::CmpConst("mv".to_string(), [Op::Eq, Op::Lt, Op::Gt, Op::Ne][guard_sel as usize / 10 % 4], guard_sel / 40 % 4),
+                                _ => G::BoolVar("mv".to_string(), guard_sel / 10 % 2 == 1),
+                            });
+                            break;
                         }
                     }
                     if guard_sel % 4 == 1 {
